@@ -16,7 +16,7 @@ import coqemit as E
 
 ID = "C08"
 PROPS = "Props/C08.v"
-IMPORTS = ("From Coq Require Import NArith.\nFrom PV Require Import Lib.Common Gen.C08_Entropy Model.C08_World.\n"
+IMPORTS = ("From Coq Require Import NArith.\nFrom PV Require Import Lib.Common Gen.C08_Entropy Model.C08_World Gen.C08_Kernel Model.C08_SeedK.\n"
            "Import String.StringSyntax.\nDelimit Scope string_scope with string.")
 SHARD = 16
 LEVEL_TEXT = ("Coq theorems over (a) a world model {python stream, numpy stream, OS, explicit generators}: any program of calls whose "
@@ -28,9 +28,16 @@ LEVEL_TEXT = ("Coq theorems over (a) a world model {python stream, numpy stream,
               "and the legacy set GA, all repaired: their former root causes are proved explicit-only without exception, with regression "
               "witnesses about the former code), no function of the package reaches OS entropy, every function that accepts rng is explicit-only "
               "up to the named root causes of the findings that remain known (memetic mutation operators, helpers without an rng parameter, deap's "
-              "selTournamentDCD); (c) a bit-exact MT19937 model of prng.seed/spawn. The model is tied "
+              "selTournamentDCD), no function snapshots a generator (copy/deepcopy/pickle/get_state of a generator reference); (c) a bit-exact MT19937 "
+              "model of prng.seed/spawn whose argument, bounds, count, guard and default expressions are REGENERATED from prng.py (Gen/C08_Kernel.v) and "
+              "proved equal to the hand model, with range theorems about the generated expressions (numpy's seed <= 2^32-1, spawn seeds <= 2^sbits-1, "
+              "exactly the negative counts are refused, the pymoo seed of all 13 minimize() sites is an unsigned 32-bit function of the optimiser's draw); "
+              "(d) an object/copy world model: reproducibility after seeding and isolation of explicit generators survive programs with copies of "
+              "components (copies share the generator; a copy is observationally its source), snapshot copies and a setter that leaves a part on the old "
+              "generator are refuted. The model is tied "
               "to the code by evaluating it inside Coq against the implementation (seed/spawn states bit for bit; observed stream "
-              "movements and reproducibility of every stochastic API against the static footprints)")
+              "movements and reproducibility of every stochastic API against the static footprints; components obtained through copy.copy / copy.deepcopy / "
+              ".copy() / .deepcopy() / the rng setter, before or after the seeding, compared with the same program without copies)")
 LEVEL_NOTE = ("trusted: Coq kernel + vm_compute; the ast translator (over-approximating reference graph: attribute access on objects of "
               "unknown class is linked to every member of that name; methods invoked implicitly by operators are checked separately "
               "to be source-free); hand-entered third-party facts (pymoo 0.6.2 minimize() seeds default_rng(seed), None without a seed argument, "
@@ -44,8 +51,16 @@ RULE = ("case kinds from one PRNG: seedmodel (seed in boundary set {0,1,2^32-1,2
         "configuration classes, spawn, apply_jitter, EMBV, every optimiser, selection protocols of all four decision-space kinds (deterministic and "
         "default optimisers, 1 and 2 objectives, mate protocols with the optimisation stubbed), the four random selection protocols, "
         "Generalized1NormGenomicSelection, OptimalContribution problem construction on a singular relationship matrix; non-trivial = the component consumed randomness "
-        "(some stream moved); distinct by SHA-256 of the case")
+        "(some stream moved); distinct by SHA-256 of the case. "
+        "Object lifecycle: every object component (mating, phenotyping, selection protocols/configurations, optimisers) is also obtained through a copy route "
+        "(all of __copy__/__deepcopy__/copy()/deepcopy() with and without memo, chains, for classes that define them; python's default shallow copy for the others; "
+        "the rng property setter) and/or constructed BEFORE the seeding / stream perturbation, then used; a third reference run executes the same program without "
+        "copies from the same seed / generator state: outputs, final global streams and final generator state must coincide. python's default deep copy and the "
+        "rng setter of protocols with default optimisers are exercised and classified as known findings. Seed model: spawn requests incl. negative counts (refused), "
+        "sbits omitted (default). Fail-closed audit by introspection: all 117 classes/functions/methods accepting rng are executed by a component, inherit "
+        "select() from an executed family base (checked), or are skipped with a reason; copy methods of stochastic classes must match the lifecycle table")
 TRUSTED = ["harness/translate/c08_entropy.py (ast translator, fail closed on unclassified references to entropy-bearing modules)",
+           "harness/translate/c08_kernel.py (kernel expressions of prng.seed / prng.spawn / minimize(seed=...) located by statement shape, fail closed; python int() on a non-negative rational = floor)",
            "pymoo 0.6.2 Algorithm.setup: random_state = default_rng(seed), seed None unless passed to minimize(): OS entropy iff a minimize() call site passes no seed (entered by hand, checked syntactically at every call site, cross-checked dynamically)",
            "pymoo 0.6.2 operators receive random_state = the algorithm's generator (Operator.do / Mating.do): a pybrops operator that reads random_state from its "
            "keyword arguments draws from the generator seeded by minimize(seed=...) (entered by hand, cross-checked dynamically by the isolation runs of the subset optimisers)",
@@ -152,25 +167,31 @@ def _soln(s):
 
 # ---------------------------------------------------------------------------------------------- components
 # name -> (static table names, accepts_rng, runner(par, rng) -> JSON-able output)
+def _obj(st, accepts, build, use):
+    """a component that is an OBJECT holding a generator: build(par, rng) -> object, use(object, par) -> JSON-able output.
+    The plain runner constructs and uses; the lifecycle steps put a copy route (and a re-seeding) between the two."""
+    return (st, accepts, (lambda par, rng: use(build(par, rng), par)), build, use)
+
 def _mate(clsname, nparent, static_extra=()):
-    def run(par, rng):
+    def build(par, rng):
         mod = __import__("pybrops.breed.prot.mate." + clsname, fromlist=[clsname])
         P = getattr(mod, clsname)
+        return P(progeny_counter=par.get("pc", 0), family_counter=0, rng=rng)
+    def use(prot, par):
         pg = _pgmat(par)
         g = _lrng(par.get("dseed", 1) + 5)
         ncross = par.get("ncross", 3)
         xconfig = g.integers(0, pg.ntaxa, size=(ncross, nparent))
-        prot = P(progeny_counter=par.get("pc", 0), family_counter=0, rng=rng)
         out = prot.mate(pg, xconfig, par.get("nmating", 1), par.get("nprogeny", 2), nself=par.get("nself", 0))
         return {"mat": _arr(out.mat), "taxa": _h(numpy.array([str(x) for x in out.taxa])), "grp": _arr(out.taxa_grp), "pc": int(prot.progeny_counter)}
     st = ["breed.prot.mate.%s.%s.mate" % (clsname, clsname), "breed.prot.mate.%s.%s.__init__" % (clsname, clsname)]
-    return (st, True, run)
+    return _obj(st, True, build, use)
 
-def _phenotype(par, rng):
+def _phenotype_build(par, rng):
     from pybrops.breed.prot.pt.G_E_Phenotyping import G_E_Phenotyping
-    pg = _pgmat(par); gm = _gmod(par)
-    pt = G_E_Phenotyping(gm, nenv=par.get("nenv", 2), nrep=par.get("nrep", 2), var_env=0.5, var_rep=0.25, var_err=1.0, rng=rng)
-    df = pt.phenotype(pg)
+    return G_E_Phenotyping(_gmod(par), nenv=par.get("nenv", 2), nrep=par.get("nrep", 2), var_env=0.5, var_rep=0.25, var_err=1.0, rng=rng)
+def _phenotype_use(pt, par):
+    df = pt.phenotype(_pgmat(par))
     return {"vals": _h(df[["tr0", "tr1"]].to_numpy(dtype=float)), "head": _arr(df[["tr0", "tr1"]].to_numpy(dtype=float)[:4]), "n": int(len(df))}
 
 def _sus(par, rng):
@@ -202,7 +223,7 @@ def _outcross(par, rng):
     return {"out": _arr(x)}
 
 def _cfg(clsname, mate=False):
-    def run(par, rng):
+    def build(par, rng):
         mod = __import__("pybrops.breed.prot.sel.cfg." + clsname, fromlist=[clsname])
         C = getattr(mod, clsname)
         pg = _pgmat(par)
@@ -219,12 +240,15 @@ def _cfg(clsname, mate=False):
         if mate:
             g = _lrng(par.get("dseed", 1) + 9)
             kw["xconfig_xmap"] = g.integers(0, pg.ntaxa, size=(6, nparent))
-        c = C(**kw)
-        first = numpy.array(c.xconfig).copy()
-        second = c.sample_xconfig(return_xconfig=True)
-        return {"first": _arr(first), "second": _arr(second)}
+        return C(**kw)                      # the constructor samples a first cross configuration
+    def use(c, par):
+        out = {}
+        if not par.get("_pre"):             # (an object made before the seeding sampled its first configuration from the unseeded stream)
+            out["first"] = _arr(numpy.array(c.xconfig).copy())
+        out["second"] = _arr(c.sample_xconfig(return_xconfig=True))
+        return out
     st = ["breed.prot.sel.cfg.%s.%s.sample_xconfig" % (clsname, clsname), "breed.prot.sel.cfg.%s.%s.__init__" % (clsname, clsname)]
-    return (st, True, run)
+    return _obj(st, True, build, use)
 
 def _spawn(par, rng):
     from pybrops.core.random import prng
@@ -252,23 +276,26 @@ def _embv(par, rng):
     return {"mat": _arr(e.mat)}
 
 def _algo(modname, clsname, kind, nobj, extra=None):
-    def run(par, rng):
+    def build(par, rng):
         mod = __import__("pybrops.opt.algo." + modname, fromlist=[clsname])
         A = getattr(mod, clsname)
         kw = dict(ngen=par.get("ngen", 3), pop_size=par.get("pop", 8), rng=rng)
         kw.update(extra or {})
-        algo = A(**kw)
+        return A(**kw)
+    def use(algo, par):
         return _soln(algo.minimize(_dummy_problem(kind, nobj, par)))
     st = ["opt.algo.%s.%s.minimize" % (modname, clsname), "opt.algo.%s.%s.__init__" % (modname, clsname)]
-    return (st, True, run)
+    return _obj(st, True, build, use)
 
-def _hill(par, rng):
+def _hill_build(par, rng):
     from pybrops.opt.algo.SteepestDescentSubsetHillClimber import SteepestDescentSubsetHillClimber
+    return SteepestDescentSubsetHillClimber(rng=rng)
+def _hill_use(algo, par):
     par = dict(par); par.setdefault("nsup", 10); par.setdefault("ndecn", 3)
     # a flat objective keeps the random starting subset as the answer
     prob = _dummy_problem("subset", 1, par)
     prob.obj_wt = numpy.zeros(1)
-    return _soln(SteepestDescentSubsetHillClimber(rng=rng).minimize(prob))
+    return _soln(algo.minimize(prob))
 
 def _sorthill(par, rng):
     from pybrops.opt.algo.SortingSteepestDescentSubsetHillClimber import SortingSteepestDescentSubsetHillClimber
@@ -281,12 +308,13 @@ def _sorting(par, rng):
     return _soln(SortingSubsetOptimizationAlgorithm().minimize(_dummy_problem("subset", 1, par)))
 
 def _uncon(modname, clsname, nobj):
-    def run(par, rng):
+    def build(par, rng):
         mod = __import__("pybrops.opt.algo." + modname, fromlist=[clsname])
         A = getattr(mod, clsname)
         warnings.filterwarnings("ignore", message="A class named")
         from pybrops.core.random.prng import global_prng
-        algo = A(ngen=par.get("ngen", 3), mu=8, lamb=8, M=1.5, rng=(rng if rng is not None else global_prng))
+        return A(ngen=par.get("ngen", 3), mu=8, lamb=8, M=1.5, rng=(rng if rng is not None else global_prng))
+    def use(algo, par):
         w = numpy.arange(12) * 37 % 101 / 8.0
         if nobj == 1:
             f = lambda x: float(w[numpy.asarray(x, dtype=int)].sum())
@@ -296,30 +324,33 @@ def _uncon(modname, clsname, nobj):
         front, decn, misc = algo.optimize(f, 3, numpy.arange(12), numpy.array([1.0, 1.0]))
         return {"decn": _h(numpy.asarray(decn)), "obj": _h(numpy.asarray(front))}
     st = ["opt.algo.%s.%s.optimize" % (modname, clsname), "opt.algo.%s.%s.__init__" % (modname, clsname)]
-    return (st, True, run)
+    return _obj(st, True, build, use)
 
-def _unconhill(par, rng):
+def _unconhill_build(par, rng):
     from pybrops.opt.algo.UnconstrainedSteepestAscentSetHillClimber import UnconstrainedSteepestAscentSetHillClimber
     from pybrops.core.random.prng import global_prng
-    algo = UnconstrainedSteepestAscentSetHillClimber(rng=(rng if rng is not None else global_prng))
+    return UnconstrainedSteepestAscentSetHillClimber(rng=(rng if rng is not None else global_prng))
+def _unconhill_use(algo, par):
     score, soln, misc = algo.optimize(lambda x: 0.0, 3, numpy.arange(9), 1.0)
     return {"decn": _arr(soln)}
 
 def _selprot(kind, nobj=1, default_algo=True):
     """a selection protocol handed its own generator: the configuration is sampled from it, and so do the default optimisers
     (kind subset, default_algo False: a deterministic optimiser, so that the only draws are those of the configuration)"""
-    def run(par, rng):
+    def build(par, rng):
         import pybrops.breed.prot.sel.EstimatedBreedingValueSelection as E
         from pybrops.opt.algo.SortingSubsetOptimizationAlgorithm import SortingSubsetOptimizationAlgorithm
-        pg = _pgmat(par); gm = _gmod(par, nobj)
-        gm.beta = numpy.full((1, nobj), 64.0)       # positive breeding values: the optimum never is the empty selection
-        bv = gm.gebv(pg)
         P = getattr(E, "EstimatedBreedingValue%sSelection" % kind.capitalize())
         kw = dict(ntrait=nobj, unscale=True, ncross=par.get("ncross", 2), nparent=2, nmating=1, nprogeny=2, nobj=nobj, ndset_wt=1.0, rng=rng)
         if not default_algo: kw["soalgo"] = SortingSubsetOptimizationAlgorithm()
         prot = P(**kw)
         if default_algo:           # the default optimisers (built by the protocol), shortened
             for a in (prot.soalgo, prot.moalgo): a.ngen = par.get("ngen", 3); a.pop_size = par.get("pop", 8)
+        return prot
+    def use(prot, par):
+        pg = _pgmat(par); gm = _gmod(par, nobj)
+        gm.beta = numpy.full((1, nobj), 64.0)       # positive breeding values: the optimum never is the empty selection
+        bv = gm.gebv(pg)
         cfg = prot.select(pgmat=pg, gmat=None, ptdf=None, bvmat=bv, gpmod=None, t_cur=0, t_max=1)
         out = {"xconfig": _arr(cfg.xconfig)}
         if par.get("resample"): out["second"] = _arr(cfg.sample_xconfig(return_xconfig=True))
@@ -328,7 +359,7 @@ def _selprot(kind, nobj=1, default_algo=True):
     st = ["breed.prot.sel.%sSelectionProtocol.%sSelectionProtocol.select" % (K, K)]
     if default_algo:
         st += ["breed.prot.sel.%sSelectionProtocol.%sSelectionProtocol.soalgo.setter" % (K, K), "breed.prot.sel.%sSelectionProtocol.%sSelectionProtocol.moalgo.setter" % (K, K)]
-    return (st, True, run)
+    return _obj(st, True, build, use)
 
 def _mateselprot(kind, nobj=1):
     """the (semi-abstract) mate selection protocols: select() with the optimisation stubbed out, so that the configuration
@@ -357,17 +388,17 @@ def _mateselprot(kind, nobj=1):
     return (["breed.prot.sel.%sMateSelectionProtocol.%sMateSelectionProtocol.select" % (K, K)], True, run)
 
 def _randsel(kind):
-    def run(par, rng):
+    def build(par, rng):
         import pybrops.breed.prot.sel.RandomSelection as R
         from pybrops.opt.algo.SortingSubsetOptimizationAlgorithm import SortingSubsetOptimizationAlgorithm
-        pg = _pgmat(par)
         P = getattr(R, "Random%sSelection" % kind.capitalize())
         kw = dict(ntrait=par.get("ntrait", 1), ncross=2, nparent=2, nmating=1, nprogeny=2, nobj=par.get("ntrait", 1), ndset_wt=1.0, rng=rng)
         if kind == "subset": kw["soalgo"] = SortingSubsetOptimizationAlgorithm()
-        prot = P(**kw)
-        prob = prot.problem(pgmat=pg, gmat=None, ptdf=None, bvmat=None, gpmod=None, t_cur=0, t_max=1)
+        return P(**kw)
+    def use(prot, par):
+        prob = prot.problem(pgmat=_pgmat(par), gmat=None, ptdf=None, bvmat=None, gpmod=None, t_cur=0, t_max=1)
         return {"rbv": _arr(prob.rbv)}
-    return (["breed.prot.sel.RandomSelection.Random%sSelection.problem" % kind.capitalize()], True, run)
+    return _obj(["breed.prot.sel.RandomSelection.Random%sSelection.problem" % kind.capitalize()], True, build, use)
 
 def _g1norm(par, rng):
     """legacy protocol: hill climber (draws from the protocol's generator), then the selected parents are shuffled"""
@@ -400,7 +431,8 @@ COMPONENTS = {
     "ThreeWayCross": _mate("ThreeWayCross", 3), "ThreeWayDHCross": _mate("ThreeWayDHCross", 3),
     "FourWayCross": _mate("FourWayCross", 4), "FourWayDHCross": _mate("FourWayDHCross", 4),
     "SelfCross": _mate("SelfCross", 1),
-    "G_E_Phenotyping": (["breed.prot.pt.G_E_Phenotyping.G_E_Phenotyping.phenotype", "breed.prot.pt.G_E_Phenotyping.G_E_Phenotyping.__init__"], True, _phenotype),
+    "G_E_Phenotyping": _obj(["breed.prot.pt.G_E_Phenotyping.G_E_Phenotyping.phenotype", "breed.prot.pt.G_E_Phenotyping.G_E_Phenotyping.__init__"], True,
+                            _phenotype_build, _phenotype_use),
     "sus": (["core.random.sampling.stochastic_universal_sampling"], True, _sus),
     "sus2d": (["core.random.sampling.stochastic_universal_sampling"], True, _sus2),
     "tiled_choice_norepl": (["core.random.sampling.tiled_choice"], True, _tiled(False)),
@@ -414,12 +446,13 @@ COMPONENTS = {
     "spawn": (["core.random.prng.spawn"], False, _spawn),
     "apply_jitter": (["popgen.cmat.DenseCoancestryMatrix.DenseCoancestryMatrix.apply_jitter"], False, _jitter),
     "EMBV": (["model.embvmat.DenseExpectedMaximumBreedingValueMatrix.DenseExpectedMaximumBreedingValueMatrix.from_gmod"], False, _embv),
-    "HillClimber": (["opt.algo.SteepestDescentSubsetHillClimber.SteepestDescentSubsetHillClimber.minimize",
-                     "opt.algo.SteepestDescentSubsetHillClimber.SteepestDescentSubsetHillClimber.__init__"], True, _hill),
+    "HillClimber": _obj(["opt.algo.SteepestDescentSubsetHillClimber.SteepestDescentSubsetHillClimber.minimize",
+                         "opt.algo.SteepestDescentSubsetHillClimber.SteepestDescentSubsetHillClimber.__init__"], True, _hill_build, _hill_use),
     "SortingHillClimber": (["opt.algo.SortingSteepestDescentSubsetHillClimber.SortingSteepestDescentSubsetHillClimber.minimize"], False, _sorthill),
     "SortingAlgo": (["opt.algo.SortingSubsetOptimizationAlgorithm.SortingSubsetOptimizationAlgorithm.minimize"], False, _sorting),
-    "UnconHill": (["opt.algo.UnconstrainedSteepestAscentSetHillClimber.UnconstrainedSteepestAscentSetHillClimber.optimize",
-                   "opt.algo.UnconstrainedSteepestAscentSetHillClimber.UnconstrainedSteepestAscentSetHillClimber.__init__"], True, _unconhill),
+    "UnconHill": _obj(["opt.algo.UnconstrainedSteepestAscentSetHillClimber.UnconstrainedSteepestAscentSetHillClimber.optimize",
+                       "opt.algo.UnconstrainedSteepestAscentSetHillClimber.UnconstrainedSteepestAscentSetHillClimber.__init__"], True,
+                      _unconhill_build, _unconhill_use),
     "SubsetGA": _algo("SubsetGeneticAlgorithm", "SubsetGeneticAlgorithm", "subset", 1),
     "BinaryGA": _algo("BinaryGeneticAlgorithm", "BinaryGeneticAlgorithm", "binary", 1),
     "IntegerGA": _algo("IntegerGeneticAlgorithm", "IntegerGeneticAlgorithm", "integer", 1),
@@ -449,6 +482,74 @@ COMPONENTS = {
     "G1NormSel": (["breed.prot.sel.UnconstrainedGeneralized1NormGenomicSelection.Generalized1NormGenomicSelection.select"], True, _g1norm),
     "OCSProblem": (["breed.prot.sel.OptimalContributionSelection.OptimalContributionSubsetSelection.problem"], True, _ocs_problem),
 }
+
+# ---------------------------------------------------------------------------------------------- object lifecycle (copies)
+# Stochastic components are objects holding a generator.  A step of a program may obtain its object through a copy route
+# ("life") instead of straight from the constructor, and may obtain it BEFORE the seeding / before the streams are perturbed
+# ("pre": the object, and the copy, belong to the prior history).  Required: the copy behaves as its source - on the global
+# stream it stays on the global stream (same function of the seed), with an explicit generator it consumes that generator.
+OBJ_COMPS = [c for c, v in COMPONENTS.items() if len(v) == 5]
+ROUTES = {"copy": copy.copy, "deepcopy": copy.deepcopy, "mcopy": lambda o: o.copy(), "mdeepcopy": lambda o: o.deepcopy(),
+          "deepcopy_memo": lambda o: copy.deepcopy(o, {}), "mdeepcopy_memo": lambda o: o.deepcopy({})}
+LIFE = {"ctor": [], "copy": ["copy"], "deepcopy": ["deepcopy"], "mcopy": ["mcopy"], "mdeepcopy": ["mdeepcopy"], "deepcopy_memo": ["deepcopy_memo"],
+        "mdeepcopy_memo": ["mdeepcopy_memo"], "deepcopy+copy": ["deepcopy", "copy"], "mcopy+mdeepcopy": ["mcopy", "mdeepcopy"],
+        "copy+copy": ["copy", "copy"],
+        # the generator arrives through the property setter: constructed on a throw-away generator, then `obj.rng = <the generator>`
+        # (None = the global stream); must behave as if constructed with it
+        "setter": ["setter"], "setter+copy": ["setter", "copy"], "setter+mdeepcopy": ["setter", "mdeepcopy"]}
+# classes that define copy routes of their own (the library says what a copy is): component -> (class path, routes, table names).
+# Verified by introspection in audit_entry_points(): a stochastic class that gains / loses a copy method must be reclassified here.
+OWN_COPY = {"G_E_Phenotyping": ("pybrops.breed.prot.pt.G_E_Phenotyping.G_E_Phenotyping", ("__copy__", "__deepcopy__", "copy", "deepcopy"),
+                                ["breed.prot.pt.G_E_Phenotyping.G_E_Phenotyping.__copy__", "breed.prot.pt.G_E_Phenotyping.G_E_Phenotyping.__deepcopy__"])}
+LIFE_OWN = [k for k in LIFE if k != "ctor"]                      # every route
+LIFE_DEFAULT_OK = ["copy", "copy+copy", "setter", "setter+copy"]      # python's default shallow copy shares the attributes: must behave as the source
+# the constructor of a selection configuration samples a first configuration: an object that received its generator later is at another
+# position of the stream than one constructed with it - no reference behaviour to compare the setter route with
+NO_SETTER = lambda c: c.endswith("Cfg")
+# selection protocols that build default optimisers from the constructor's generator: `prot.rng = g` leaves them on the OLD generator
+# (known finding C08-selprot-rng-setter-stale-optimiser); exercised separately and classified
+SETTER_STALE = ("SelProtSubsetGA", "SelProtSubsetMO", "SelProtReal", "SelProtRealMO", "SelProtBinary", "SelProtBinaryMO", "SelProtInteger", "SelProtIntegerMO")
+LIFE_DEFAULT_DEEP = ["deepcopy", "deepcopy_memo", "deepcopy+copy"]     # python's default deep copy duplicates the generator: known finding
+
+def _life_kind(step):
+    """None (constructor) | 'own' (the class defines the route) | 'shallow' | 'deep' (python defaults)"""
+    life = step.get("life", "ctor")
+    if life == "ctor": return None
+    if step["comp"] in OWN_COPY: return "own"
+    return "deep" if any(r.startswith("deepcopy") for r in LIFE[life]) else "shallow"
+
+_SALT = [0]          # distinguishes the executions of one case: the throw-away generator of the setter route differs between them
+def _obtain(step, rng):
+    comp = step["comp"]
+    routes = list(LIFE[step.get("life", "ctor")])
+    if routes[:1] == ["setter"]:
+        # constructed on a throw-away generator that is DIFFERENT in every execution (it is prior history: nothing may depend on it)
+        obj = COMPONENTS[comp][3](step.get("par", {}), numpy.random.Generator(numpy.random.PCG64(987654321 + _SALT[0])))
+        obj.rng = rng
+        routes = routes[1:]
+    else:
+        obj = COMPONENTS[comp][3](step.get("par", {}), rng)
+    for r in routes: obj = ROUTES[r](obj)
+    return obj
+
+def _obtain_pre(prog, rng):
+    """objects (and copies) that exist before the seeding / the perturbation of the streams: index of the step -> object"""
+    return {i: _obtain(s, rng) for i, s in enumerate(prog) if s.get("pre")}
+
+def _has_life(prog):
+    """is there a reference program without copies to compare with?  (not for the setter route on a component whose constructor
+    draws: there the requirement is only that nothing depends on the throw-away generator)"""
+    if any(s.get("life", "ctor").startswith("setter") and NO_SETTER(s["comp"]) for s in prog): return False
+    return any(s.get("life", "ctor") != "ctor" for s in prog)
+
+def _ref_prog(prog):
+    """the same program with every object straight from its constructor (made at the same time as in the program)"""
+    out = []
+    for s in prog:
+        s = dict(s)
+        if s.pop("life", "ctor").startswith("setter"): s["par"] = dict(s.get("par", {}), _pre=True)     # (same observables as the setter step)
+        out.append(s)
+    return out
 
 # ---------------------------------------------------------------------------------------------- driver
 def _gstate():
@@ -481,13 +582,128 @@ def _history(h):
         elif k == "npseed": numpy.random.seed(v)
         elif k == "pyseed": random.seed(v)
         elif k == "comp": COMPONENTS[v][2](op[2] if len(op) > 2 else {}, None)
+        elif k == "life": _run_prog([{"comp": v, "par": op[2], "life": op[3]}], None)       # a component obtained through a copy route, used, dropped
         else: raise ValueError(op)
 
-def _run_prog(prog, rng):
+def _run_prog(prog, rng, pre=None):
     outs = []
-    for step in prog:
-        outs.append(COMPONENTS[step["comp"]][2](step.get("par", {}), rng))
+    for i, step in enumerate(prog):
+        par = step.get("par", {})
+        if "life" in step or step.get("pre") or par.get("_pre"):
+            obj = pre[i] if (pre is not None and i in pre) else _obtain(step, rng)
+            if step.get("pre") or step.get("life", "ctor").startswith("setter"): par = dict(par, _pre=True)
+            outs.append(COMPONENTS[step["comp"]][4](obj, par))
+        else:
+            outs.append(COMPONENTS[step["comp"]][2](par, rng))
     return outs
+
+def _single_run(case, tag):
+    """ONE execution of a case.  repro: tag A / B = [history h1 / h2; objects made before the seeding; seed; program], R = the program
+    without copies after an empty history.  isolated: tag 1 / 2 = [history h1 / h2; the generator; objects; program], 3 = without copies."""
+    from pybrops.core.random import prng
+    _SALT[0] = {"A": 1, "B": 2, "R": 3, "1": 1, "2": 2, "3": 3}[tag] + (10 if _IN_FRESH[0] else 0)
+    if case["kind"] == "repro":
+        h = {"A": case["h1"], "B": case["h2"], "R": []}[tag]
+        prog = _ref_prog(case["prog"]) if tag == "R" else case["prog"]
+        _history(h)
+        pre = _obtain_pre(prog, None)            # objects and copies made BEFORE the seeding
+        prng.seed(case["seed"])
+        g0 = _gstate()
+        outs = _run_prog(prog, None, pre)
+        g1 = _gstate()
+        return {"outs": outs, "py_end": g1[0], "np_end": g1[1], "py_moved": g0[0] != g1[0], "np_moved": g0[1] != g1[1]}
+    h = {"1": case.get("h1", []), "2": case.get("h2", []), "3": []}[tag]
+    prog = _ref_prog(case["prog"]) if tag == "3" else case["prog"]
+    _history(h)
+    rng = _mkrng(case["rngkind"], case["rseed"])
+    for _ in range(case.get("skip", 0)): rng.random()
+    g0 = _gstate(); r0 = _rstate(rng)
+    pre = _obtain_pre(prog, rng)
+    outs = _run_prog(prog, rng, pre)
+    g1 = _gstate(); r1 = _rstate(rng)
+    return {"outs": outs, "py_moved": g0[0] != g1[0], "np_moved": g0[1] != g1[1], "ex_moved": r0 != r1, "r_end": r1}
+
+# ---- a process that has executed nothing: state cached inside the interpreter (memoised draws, lru_cache'd helpers, class-level
+# caches) is the same in two executions made one after the other in ONE process, so comparing those cannot see it.  Every worker
+# therefore forks, before it executes its first case, a "zygote" that never runs library code itself and only forks a child per job;
+# the child executes one `_single_run` from the pristine state and pipes the result back.
+_ZYG = None
+_IN_FRESH = [False]
+def _zygote():
+    global _ZYG
+    import os, json, signal
+    if _ZYG is not None and _ZYG[0] == os.getpid(): return _ZYG
+    c2z_r, c2z_w = os.pipe(); z2c_r, z2c_w = os.pipe()
+    pid = os.fork()
+    if pid == 0:
+        try:
+            os.close(c2z_w); os.close(z2c_r)
+            signal.alarm(0)
+            for s in (signal.SIGALRM, signal.SIGTERM, signal.SIGINT): signal.signal(s, signal.SIG_DFL)
+            fin = os.fdopen(c2z_r, "r"); fout = os.fdopen(z2c_w, "w")
+            while True:
+                line = fin.readline()
+                if not line: break
+                r, w = os.pipe()
+                k = os.fork()
+                if k == 0:
+                    os.close(r)
+                    try:
+                        signal.alarm(170)                      # default action: the child dies, the parent reports it
+                        job = json.loads(line)
+                        _IN_FRESH[0] = True
+                        res = _single_run(job["case"], job["tag"])
+                    except BaseException as e:
+                        res = {"exc": type(e).__name__, "msg": str(e)[:300]}
+                    try: res["job"] = json.loads(line)["job"]
+                    except Exception: pass
+                    try:
+                        data = json.dumps(res).encode()
+                        while data: data = data[os.write(w, data):]
+                    finally:
+                        os._exit(0)
+                os.close(w)
+                chunks = []
+                while True:
+                    c = os.read(r, 1 << 16)
+                    if not c: break
+                    chunks.append(c)
+                os.close(r); os.waitpid(k, 0)
+                data = b"".join(chunks).decode() or json.dumps({"exc": "FreshProcessDied", "msg": "no result (killed or timed out)", "job": json.loads(line).get("job")})
+                fout.write(data.replace("\n", " ") + "\n"); fout.flush()
+        finally:
+            os._exit(0)
+    os.close(c2z_r); os.close(z2c_w)
+    _ZYG = (os.getpid(), os.fdopen(c2z_w, "w"), os.fdopen(z2c_r, "r"), pid)
+    return _ZYG
+
+_JOB = [0]
+def _fresh_submit(job):
+    """hand one execution to a fresh process; returns a ticket for _fresh_collect (answers are matched by job number: an answer
+    that was never collected because the caller raised in between is skipped, not handed to the next case)"""
+    import json
+    try:
+        z = _zygote()
+        _JOB[0] += 1
+        z[1].write(json.dumps(dict(job, job=_JOB[0])) + "\n"); z[1].flush()
+        return (z, _JOB[0])
+    except Exception as e:
+        return {"exc": type(e).__name__, "msg": "zygote: %s" % e}
+
+def _fresh_collect(ticket):
+    import json
+    if isinstance(ticket, dict): return ticket
+    z, job = ticket
+    try:
+        while True:
+            line = z[2].readline()
+            if not line: return {"exc": "FreshProcessDied", "msg": "zygote closed the pipe"}
+            res = json.loads(line)
+            if res.get("job") == job:
+                res.pop("job", None); return res
+            if not isinstance(res.get("job"), int) or res["job"] > job: return {"exc": "FreshProcessDied", "msg": "answers out of order"}
+    except Exception as e:
+        return {"exc": type(e).__name__, "msg": "zygote: %s" % e}
 
 def run_impl(case):
     from pybrops.core.random import prng
@@ -500,7 +716,11 @@ def run_impl(case):
                "np_key": [int(x) for x in ns[1]], "np_pos": int(ns[2]), "np_gauss": int(ns[3]), "np_kind": str(ns[0])}
         ents = []
         for n in case["reqs"]:
-            g = prng.spawn(n) if case.get("sbits", 64) == 64 else prng.spawn(n, sbits=case["sbits"])
+            try:
+                g = prng.spawn(n) if case.get("sbits") is None else prng.spawn(n, sbits=case["sbits"])
+            except ValueError:
+                if not (isinstance(n, int) and n < 0): raise
+                ents.append(["rejected"]); continue          # a negative count: refused, observable
             gs = [g] if n is None else g
             ents.append([str(x.bit_generator.seed_seq.entropy) for x in gs])
             if n is None and isinstance(g, list): ents[-1] = ["list"]
@@ -510,27 +730,28 @@ def run_impl(case):
         return out
     if kind == "repro":
         res = {}
-        for tag, h in (("A", case["h1"]), ("B", case["h2"])):
-            _history(h)
-            prng.seed(case["seed"])
-            g0 = _gstate()
-            outs = _run_prog(case["prog"], None)
-            g1 = _gstate()
-            res[tag] = {"outs": outs, "py_end": g1[0], "np_end": g1[1], "py_moved": g0[0] != g1[0], "np_moved": g0[1] != g1[1]}
+        fresh = _fresh_submit({"case": case, "tag": "B"})      # the B execution once more, in a process that has executed nothing yet
+        try:
+            tags = ["A", "B"] + (["R"] if _has_life(case["prog"]) else [])        # R = reference: no copies anywhere
+            for tag in tags: res[tag] = _single_run(case, tag)
+        finally:
+            res["F"] = _fresh_collect(fresh)
         return res
     if kind == "isolated":
-        _history(case.get("h1", []))
-        rng = _mkrng(case["rngkind"], case["rseed"])
-        for _ in range(case.get("skip", 0)): rng.random()
-        g0 = _gstate(); r0 = _rstate(rng)
-        out1 = _run_prog(case["prog"], rng)
-        g1 = _gstate(); r1 = _rstate(rng)
-        _history(case.get("h2", []))
-        rng2 = _mkrng(case["rngkind"], case["rseed"])
-        for _ in range(case.get("skip", 0)): rng2.random()
-        out2 = _run_prog(case["prog"], rng2)
-        r2 = _rstate(rng2)
-        return {"py_moved": g0[0] != g1[0], "np_moved": g0[1] != g1[1], "ex_moved": r0 != r1, "out1": out1, "out2": out2, "r1": r1, "r2": r2}
+        fresh = _fresh_submit({"case": case, "tag": "2"})
+        try:
+            one = _single_run(case, "1"); two = _single_run(case, "2")
+        except BaseException:
+            _fresh_collect(fresh); raise
+        res = {"py_moved": one["py_moved"], "np_moved": one["np_moved"], "ex_moved": one["ex_moved"], "out1": one["outs"], "out2": two["outs"],
+               "r1": one["r_end"], "r2": two["r_end"]}
+        if _has_life(case["prog"]):                  # reference: the same program without copies, from an equal generator state
+            three = _single_run(case, "3")
+            res["out3"] = three["outs"]; res["r3"] = three["r_end"]
+        f = _fresh_collect(fresh)
+        if "exc" in f: res["fresh_exc"] = f
+        else: res["outF"] = f["outs"]; res["rF"] = f["r_end"]; res["F_moved"] = bool(f["py_moved"] or f["np_moved"])
+        return res
     raise ValueError(kind)
 
 # ---------------------------------------------------------------------------------------------- generator
@@ -542,14 +763,18 @@ CLEAN_RNG = ["TwoWayCross", "TwoWayDHCross", "ThreeWayCross", "ThreeWayDHCross",
             + list(GA_SUBSET_OPS) + list(SELPROT_COMPS) + list(HELPER_COMPS) + ["UnconSetGA"]          # the repaired components are ordinary cases now
 GLOBAL_ONLY = ["spawn", "apply_jitter", "EMBV", "SortingHillClimber", "SortingAlgo"]
 FINDING_COMPS = list(GA_MEMETIC) + list(DEAP_COMPS) + list(NO_RNG_HELPER_COMPS)
+LIFE_COMPS = [c for c in CLEAN_RNG if c in OBJ_COMPS]              # object components that take part in the copy lifecycle
 
 def _rand_hist(rng, heavy=False):
     h = []
     for _ in range(rng.randint(0, 4)):
-        k = rng.choice(["py", "pyg", "np", "npn", "seed", "npseed", "pyseed", "comp"])
+        k = rng.choice(["py", "pyg", "np", "npn", "seed", "npseed", "pyseed", "comp", "life"])
         if k in ("py", "np"): h.append([k, rng.randint(1, 700 if heavy else 40)])
         elif k in ("pyg", "npn"): h.append([k, rng.choice([1, 3, 5])])
         elif k in ("seed", "npseed", "pyseed"): h.append([k, rng.randint(0, 2 ** 32 - 1)])
+        elif k == "life":
+            c = rng.choice(LIFE_COMPS)
+            h.append([k, c, {}, rng.choice(LIFE_OWN if c in OWN_COPY else LIFE_DEFAULT_OK[:2])])
         else: h.append([k, rng.choice(CLEAN_RNG + GLOBAL_ONLY)])
     return h
 
@@ -584,8 +809,8 @@ def gen_cases(rng, tier):
         s = rng.getrandbits(b)
         seeds.append(-s if rng.random() < 0.1 else s)
     for s in seeds:
-        reqs = rng.choice([[None], [1], [0], [2, None], [None, 3, 1], []])
-        c = {"kind": "seedmodel", "seed": s, "reqs": reqs, "sbits": rng.choice([64, 64, 64, 32, 128, 33, 1])}
+        reqs = rng.choice([[None], [1], [0], [2, None], [None, 3, 1], [], [0, -1, 1], [-3, None]])
+        c = {"kind": "seedmodel", "seed": s, "reqs": reqs, "sbits": rng.choice([None, None, 64, 32, 128, 33, 1])}
         if rng.random() < 0.5: c["h"] = _rand_hist(rng)
         cases.append(c)
     # boundary of the spawn range: with 1-2 seed bits an off-by-one in randint(0, 2**sbits-1) shows within a few draws
@@ -615,6 +840,47 @@ def gen_cases(rng, tier):
         prog = [{"comp": c, "par": _rand_par(rng, c)} for c in (rng.choice(CLEAN_RNG) for _ in range(k))]
         cases.append({"kind": "isolated", "rngkind": rng.choice(["Generator", "RandomState", "MT"]), "rseed": rng.getrandbits(31), "skip": 0,
                       "h1": _rand_hist(rng), "h2": [["py", 3], ["np", 5]] + _rand_hist(rng), "prog": prog})
+    # --- object lifecycle: the component is obtained through a copy route, possibly BEFORE the seeding / perturbation (pre)
+    def life_step(comp, life, pre):
+        return {"comp": comp, "par": _rand_par(rng, comp), "life": life, "pre": bool(pre)}
+    def repro_case(prog, heavy=True):
+        return {"kind": "repro", "seed": rng.choice(SEED_EDGE[:6] + [rng.getrandbits(40)]), "h1": _rand_hist(rng), "h2": [["np", rng.randint(1, 9)]] + _rand_hist(rng, heavy), "prog": prog}
+    def iso_case(prog):
+        return {"kind": "isolated", "rngkind": rng.choice(["Generator", "RandomState", "MT"]), "rseed": rng.getrandbits(31), "skip": rng.choice([0, 0, 3]),
+                "h1": _rand_hist(rng), "h2": [["py", rng.randint(1, 30)], ["np", rng.randint(1, 30)]] + _rand_hist(rng), "prog": prog}
+    def ok_lives(c):
+        return LIFE_OWN if c in OWN_COPY else [l for l in LIFE_DEFAULT_OK if not (l.startswith("setter") and (NO_SETTER(c) or c in SETTER_STALE))]
+    for comp in LIFE_COMPS:           # constructed BEFORE the seeding (rng = None), used after it
+        cases.append(repro_case([{"comp": comp, "par": _rand_par(rng, comp), "pre": True}]))
+    for comp in LIFE_COMPS:
+        lives = ok_lives(comp)
+        for rep in range((1 if quick else 3) if comp not in OWN_COPY else 1):
+            for life in (lives if comp in OWN_COPY else [rng.choice(lives)]):
+                for pre in ((True, False) if comp in OWN_COPY else (rng.choice([True, False]),)):
+                    cases.append(repro_case([life_step(comp, life, pre)]))
+                    cases.append(iso_case([life_step(comp, life, pre)]))
+    for _ in range(16 if quick else 150):          # programs: copies next to their sources and to other components, copies of every own route
+        k = rng.choice([2, 3])
+        prog = []
+        for _ in range(k):
+            c = rng.choice(list(OWN_COPY) * 3 + LIFE_COMPS)
+            if rng.random() < 0.75: prog.append(life_step(c, rng.choice(ok_lives(c)), rng.random() < 0.5))
+            else: prog.append({"comp": c, "par": _rand_par(rng, c)})
+        cases.append(repro_case(prog) if rng.random() < 0.6 else iso_case(prog))
+    # python's default deep copy of a component without a __deepcopy__ of its own duplicates the generator (known finding)
+    for _ in range(6 if quick else 40):
+        c = rng.choice([x for x in LIFE_COMPS if x not in OWN_COPY and x not in GA_COMPS and not x.startswith("SelProt")])
+        prog = [life_step(c, rng.choice(LIFE_DEFAULT_DEEP), True)]
+        cases.append(repro_case(prog, False)); cases.append(iso_case([life_step(c, rng.choice(LIFE_DEFAULT_DEEP), rng.random() < 0.5)]))
+    # the rng setter of the selection configurations (their constructor draws: no reference program; nothing may depend on the
+    # throw-away generator the object was constructed with)
+    for c in [x for x in LIFE_COMPS if NO_SETTER(x)]:
+        for rep in range(1 if quick else 3):
+            cases.append(iso_case([life_step(c, rng.choice(["setter", "setter+copy"]), False)]))
+            cases.append(repro_case([life_step(c, rng.choice(["setter", "setter+copy"]), rng.random() < 0.5)], False))
+    # the rng setter of a selection protocol with default optimisers (known finding)
+    for c in (rng.sample(SETTER_STALE, 3) if quick else SETTER_STALE):
+        cases.append(iso_case([life_step(c, "setter", False)])); cases.append(repro_case([life_step(c, "setter", rng.random() < 0.5)], False))
     rng.shuffle(cases)          # spread the heavy seed-model cases over the shards
     return cases
 
@@ -622,14 +888,18 @@ def gen_cases(rng, tier):
 def _static_names(prog):
     names = []
     for st in prog:
-        for n in COMPONENTS[st["comp"]][0]:
+        extra = OWN_COPY[st["comp"]][2] if (st.get("life", "ctor") != "ctor" and st["comp"] in OWN_COPY) else []
+        for n in list(COMPONENTS[st["comp"]][0]) + list(extra):
             if n not in names: names.append(n)
     return names
 
 def all_static_names():
     out = []
-    for st, _, _ in COMPONENTS.values():
-        for n in st:
+    for v in COMPONENTS.values():
+        for n in v[0]:
+            if n not in out: out.append(n)
+    for v in OWN_COPY.values():
+        for n in v[2]:
             if n not in out: out.append(n)
     return out
 
@@ -637,20 +907,33 @@ def emit_case(case, out):
     if "exc" in out: return "false"
     k = case["kind"]
     if k == "seedmodel":
-        reqs = [1 if n is None else n for n in case["reqs"]]
+        # the kernel-built model (MK, assembled from the expressions regenerated from prng.py) is what is evaluated; requests the
+        # implementation refused must be refused by the generated guard, the others are answered by the model (which refuses itself
+        # where the generated guard says so: a disagreement either way is a failed case)
         if any(e == ["list"] for e in out["ents"]): return "false"
+        rej = [n for n, e in zip(case["reqs"], out["ents"]) if e == ["rejected"]]
+        reqs = [n for n, e in zip(case["reqs"], out["ents"]) if e != ["rejected"]]
+        ents = [e for e in out["ents"] if e != ["rejected"]]
         ok_meta = out["py_gauss"] and out["py_ver"] == 3 and out["np_gauss"] == 0 and out["np_kind"] == "MT19937" and out["np_unmoved_by_spawn"]
         k2 = "pk" if out["py_key2"] == out["py_key"] else E.lst(out["py_key2"], E.z)
-        return "(let pk := %s in %s && MT.seed_scenario_agree %s %s %s pk %d%%nat %s %d%%nat %s %s %d%%nat)" % (
-            E.lst(out["py_key"], E.z), E.b(ok_meta), E.z(case["seed"]), E.lst(reqs, E.nat), E.z(case["sbits"]),
+        return "(let pk := %s in %s && forallb MK.spawn_rejected %s && MK.seed_scenario_agree %s %s %s pk %d%%nat %s %d%%nat %s %s %d%%nat)" % (
+            E.lst(out["py_key"], E.z), E.b(ok_meta), E.lst(rej, E.z), E.z(case["seed"]), E.lst(reqs, lambda n: E.opt(n, E.z)), E.opt(case.get("sbits"), E.z),
             out["py_pos"], E.lst(out["np_key"], E.z), out["np_pos"],
-            E.lst2([[int(x) for x in l] for l in out["ents"]], E.z), k2, out["py_pos2"])
+            E.lst2([[int(x) for x in l] for l in ents], E.z), k2, out["py_pos2"])
     names = E.lst(_static_names(case["prog"]), E.s)
     if k == "repro":
         A, B = out["A"], out["B"]
         same = A["outs"] == B["outs"] and A["py_end"] == B["py_end"] and A["np_end"] == B["np_end"]
+        F = out["F"]
+        if "exc" in F: return "false"
+        same = same and B["outs"] == F["outs"] and B["py_end"] == F["py_end"] and B["np_end"] == F["np_end"]      # fresh interpreter state
+        if "R" in out:            # a program with copies must be the same function of the seed as the program without
+            R = out["R"]
+            same = same and A["outs"] == R["outs"] and A["py_end"] == R["py_end"] and A["np_end"] == R["np_end"]
         return "(FP.obs_agree false %s (FP.mkobs %s %s false %s))" % (names, E.b(A["py_moved"] or B["py_moved"]), E.b(A["np_moved"] or B["np_moved"]), E.b(same))
-    same = out["out1"] == out["out2"] and out["r1"] == out["r2"]
+    if "fresh_exc" in out: return "false"
+    same = out["out1"] == out["out2"] and out["r1"] == out["r2"] and out["out2"] == out["outF"] and out["r2"] == out["rF"]
+    if "out3" in out: same = same and out["out1"] == out["out3"] and out["r1"] == out["r3"]
     return "(FP.obs_agree true %s (FP.mkobs %s %s %s %s))" % (names, E.b(out["py_moved"]), E.b(out["np_moved"]), E.b(out["ex_moved"]), E.b(same))
 
 # ---------------------------------------------------------------------------------------------- independent predicate
@@ -670,8 +953,10 @@ def pred(case, out):
         if [int(v) for v in ns[1]] != out["np_key"] or int(ns[2]) != out["np_pos"] or out["np_gauss"] != 0:
             bad.append("numpy stream after seed(%d) is not numpy.random.seed(randint(0,2^32-1))" % case["seed"])
         want = []
+        sb = 64 if case.get("sbits") is None else case["sbits"]          # documented default: 64 bits
         for n in case["reqs"]:
-            want.append([str(r.randint(0, 2 ** case["sbits"] - 1)) for _ in range(1 if n is None else n)])
+            if n is not None and n < 0: want.append(["rejected"]); continue          # documented: n must be positive or zero
+            want.append([str(r.randint(0, 2 ** sb - 1)) for _ in range(1 if n is None else n)])
         if want != out["ents"]: bad.append("spawn(): stream seeds are not successive randint(0, 2^sbits-1) draws of the python stream")
         st2 = r.getstate()
         if list(st2[1][:624]) != out["py_key2"] or st2[1][624] != out["py_pos2"]: bad.append("python stream after spawn() differs from the reference")
@@ -685,6 +970,25 @@ def pred(case, out):
         if not bad:
             if A["py_end"] != B["py_end"]: bad.append("python stream differs at the end of the seeded program")
             if A["np_end"] != B["np_end"]: bad.append("numpy stream differs at the end of the seeded program")
+        F = out["F"]
+        if "exc" in F: bad.append("the execution in a fresh process raised %s: %s" % (F["exc"], F["msg"]))
+        elif not bad:
+            for i, (a, b) in enumerate(zip(B["outs"], F["outs"])):
+                if a != b:
+                    bad.append("step %d (%s): outputs after the same seed differ between a process that executed other calls before and a fresh one "
+                               "(state kept inside the interpreter survives the re-seeding)" % (i, case["prog"][i]["comp"])); break
+            else:
+                if B["np_end"] != F["np_end"] or B["py_end"] != F["py_end"]:
+                    bad.append("global streams at the end of the seeded program differ between a used process and a fresh one")
+        if "R" in out:
+            R = out["R"]
+            for i, (a, b) in enumerate(zip(A["outs"], R["outs"])):
+                if a != b:
+                    bad.append("step %d (%s): a copy (%s) does not behave as its source: output differs from the same seeded program without copies"
+                               % (i, case["prog"][i]["comp"], case["prog"][i].get("life", "ctor"))); break
+            else:
+                if A["np_end"] != R["np_end"] or A["py_end"] != R["py_end"]:
+                    bad.append("a copy does not behave as its source: the global streams end elsewhere than after the same seeded program without copies")
         return bad
     if out["py_moved"]: bad.append("explicit rng: python's global stream was advanced")
     if out["np_moved"]: bad.append("explicit rng: numpy's global stream was advanced")
@@ -692,6 +996,22 @@ def pred(case, out):
         if a != b:
             bad.append("step %d (%s): result is not a function of the supplied generator's state" % (i, case["prog"][i]["comp"])); break
     if not bad and out["r1"] != out["r2"]: bad.append("supplied generator ends in different states")
+    if "fresh_exc" in out: bad.append("the execution in a fresh process raised %s: %s" % (out["fresh_exc"]["exc"], out["fresh_exc"]["msg"]))
+    elif not bad:
+        for i, (a, b) in enumerate(zip(out["out2"], out["outF"])):
+            if a != b:
+                bad.append("step %d (%s): result from equal generator states differs between a process that executed other calls before and a fresh one "
+                           "(state kept inside the interpreter)" % (i, case["prog"][i]["comp"])); break
+        else:
+            if out["r2"] != out["rF"]: bad.append("supplied generator ends in different states in a used process and in a fresh one")
+    if "out3" in out:
+        for i, (a, b) in enumerate(zip(out["out1"], out["out3"])):
+            if a != b:
+                bad.append("step %d (%s): a copy (%s) does not behave as its source: output differs from the same program without copies"
+                           % (i, case["prog"][i]["comp"], case["prog"][i].get("life", "ctor"))); break
+        else:
+            if out["r1"] != out["r3"]:
+                bad.append("a copy does not consume the supplied generator as its source does (generator ends elsewhere than after the same program without copies)")
     return bad
 
 def classify(case, out, clauses):
@@ -701,7 +1021,30 @@ def classify(case, out, clauses):
     def first(pool):
         ix = [i for i, c in enumerate(comps) if c in pool]
         return ix[0] if ix else None
-    steps = [int(c.split()[1]) for c in clauses if c.startswith("step ")]
+    steps = [int(c.split()[1].rstrip(":")) for c in clauses if c.startswith("step ")]
+    # python's default deep copy (a class WITHOUT copy routes of its own) duplicates the generator the component holds
+    deep = [i for i, s in enumerate(case["prog"]) if _life_kind(s) == "deep"]
+    if deep:
+        if not clauses or any(c in GA_MEMETIC + DEAP_COMPS + NO_RNG_HELPER_COMPS for c in comps): return None
+        if any("global stream was advanced" in c or "not a function of the supplied generator" in c for c in clauses): return None
+        if steps and min(steps) < deep[0]: return None
+        marks = ("does not behave as its source", "does not consume the supplied generator", "outputs differ after the same seed",
+                 "stream differs at the end of the seeded program", "differ between a process that executed other calls before and a fresh one",
+                 "differ between a used process and a fresh one")
+        if all(any(m in c for m in marks) for c in clauses): return "C08-default-deepcopy-snapshots-rng"
+        return None
+    # `prot.rng = g` on a selection protocol whose default optimisers were built from the constructor's generator
+    stale = [i for i, s in enumerate(case["prog"]) if s.get("life", "ctor").startswith("setter") and s["comp"] in SETTER_STALE]
+    if stale:
+        if not clauses or any(c in GA_MEMETIC + DEAP_COMPS + NO_RNG_HELPER_COMPS for c in comps): return None
+        if any("python's global" in c for c in clauses): return None
+        if steps and min(steps) < stale[0]: return None
+        marks = ("does not behave as its source", "does not consume the supplied generator", "outputs differ after the same seed",
+                 "differ between a process that executed other calls before and a fresh one", "differs between a process that executed other calls before and a fresh one",
+                 "result is not a function of the supplied generator's state")
+        if any("global stream was advanced" in c for c in clauses): return None
+        if all(any(m in c for m in marks) for c in clauses): return "C08-selprot-rng-setter-stale-optimiser"
+        return None
     if case["kind"] == "repro":
         return None                     # after seeding everything must be reproducible (C08-ga-os-entropy is fixed)
     # isolated: exactly one kind of culprit in the program
@@ -728,11 +1071,14 @@ def describe(case, out):
     d = {"kind": case["kind"], "raised": "exc" in out}
     if case["kind"] == "seedmodel":
         s = abs(case["seed"])
-        d["seed_words"] = max(1, (s.bit_length() + 31) // 32); d["sbits"] = case["sbits"]; d["negative"] = case["seed"] < 0
+        d["seed_words"] = max(1, (s.bit_length() + 31) // 32); d["sbits"] = case.get("sbits") or "default"; d["negative"] = case["seed"] < 0
+        d["rejected_requests"] = sum(1 for n in case["reqs"] if n is not None and n < 0)
         if "py_pos" in out: d["seed_rejections"] = (out["py_pos"] - 2) // 2
     else:
         d["len"] = len(case["prog"]); d["first_comp"] = case["prog"][0]["comp"]
         if case["kind"] == "isolated": d["rngkind"] = case["rngkind"]
+        lives = sorted({s.get("life", "ctor") for s in case["prog"]})
+        d["life"] = "+".join(lives) if lives != ["ctor"] else "ctor"; d["pre"] = any(s.get("pre") for s in case["prog"])
     return d
 
 def shrink(case, fails):
@@ -750,11 +1096,130 @@ def shrink(case, fails):
         t = copy.deepcopy(cur)
         for s in t["prog"]: s["par"] = {}
         if fails(t): cur = t
+        for i in range(len(cur["prog"])):           # drop copy routes that are not needed for the failure
+            t = copy.deepcopy(cur); t["prog"][i].pop("life", None); t["prog"][i].pop("pre", None)
+            if fails(t): cur = t
     elif cur.get("kind") == "seedmodel":
-        for key, val in (("h", []), ("reqs", [1]), ("sbits", 64)):
+        for key, val in (("h", []), ("reqs", [1]), ("sbits", None)):
             t = copy.deepcopy(cur); t[key] = val
             if fails(t): cur = t
     return cur
+
+# ---------------------------------------------------------------------------------------------- entry-point audit (fail closed)
+# Every class whose constructor accepts rng and every function / method with an rng parameter, found by introspection of the
+# imported package on every run, must be classified: executed by a component of this module (ENTRY_COVERED), skipped with a
+# reason (ENTRY_SKIPPED), or - for the concrete selection protocols - verified to inherit select()/sosolve()/mosolve()/rng from one
+# of the eight family bases (which ARE executed) and to add only a deterministic problem() factory (covered statically by
+# C08_rng_components_explicit_partial).  A new entry point makes the check fail until it is classified here.
+_P = "pybrops."
+ENTRY_COVERED = {}
+for _c in ("TwoWayCross", "TwoWayDHCross", "ThreeWayCross", "ThreeWayDHCross", "FourWayCross", "FourWayDHCross", "SelfCross"):
+    ENTRY_COVERED["breed.prot.mate.%s.%s" % (_c, _c)] = [_c]
+for _f in ("mat_dh", "mat_mate", "mat_meiosis"):
+    ENTRY_COVERED["breed.prot.mate.util." + _f] = ["TwoWayCross", "TwoWayDHCross", "SelfCross"]
+for _f in ("dense_cross", "dense_dh", "dense_meiosis"):
+    ENTRY_COVERED["core.util.mate." + _f] = ["TwoWayCross", "TwoWayDHCross", "SelfCross"]
+ENTRY_COVERED["breed.prot.pt.G_E_Phenotyping.G_E_Phenotyping"] = ["G_E_Phenotyping"]
+ENTRY_COVERED.update({"core.random.sampling.axis_shuffle": ["axis_shuffle"], "core.random.sampling.outcross_shuffle": ["outcross_shuffle"],
+                      "core.random.sampling.stochastic_universal_sampling": ["sus", "sus2d"],
+                      "core.random.sampling.tiled_choice": ["tiled_choice_norepl", "tiled_choice_repl"]})
+for _k in ("Subset", "Binary", "Integer", "Real"):
+    ENTRY_COVERED["breed.prot.sel.cfg.%sSelectionConfiguration.%sSelectionConfiguration" % (_k, _k)] = [_k + "Cfg"]
+    ENTRY_COVERED["breed.prot.sel.cfg.%sMateSelectionConfiguration.%sMateSelectionConfiguration" % (_k, _k)] = [_k + "MateCfg"]
+    ENTRY_COVERED["breed.prot.sel.%sSelectionProtocol.%sSelectionProtocol" % (_k, _k)] = ["SelProt" + _k, "SelProt%sMO" % _k]
+    ENTRY_COVERED["breed.prot.sel.%sMateSelectionProtocol.%sMateSelectionProtocol" % (_k, _k)] = ["MateSelProt" + _k, "MateSelProt%sMO" % _k]
+    ENTRY_COVERED["breed.prot.sel.EstimatedBreedingValueSelection.EstimatedBreedingValue%sSelection" % _k] = ["SelProt" + _k]
+    ENTRY_COVERED["breed.prot.sel.RandomSelection.Random%sSelection" % _k] = ["RandomSelProt" + ("" if _k == "Subset" else _k)]
+    ENTRY_COVERED["breed.prot.sel.prob.RandomSelectionProblem.Random%sSelectionProblem.from_object" % _k] = ["RandomSelProt" + ("" if _k == "Subset" else _k)]
+ENTRY_COVERED["breed.prot.sel.prob.RandomSelectionProblem.RandomSelectionProblemMixin.from_object"] = ["RandomSelProt"]
+ENTRY_COVERED["breed.prot.sel.SelectionProtocol.SelectionProtocol"] = ["SelProtSubset"]
+ENTRY_COVERED["breed.prot.sel.MateSelectionProtocol.MateSelectionProtocol"] = ["MateSelProtSubset"]
+ENTRY_COVERED["breed.prot.sel.OptimalContributionSelection.OptimalContributionSubsetSelection"] = ["OCSProblem"]
+ENTRY_COVERED["breed.prot.sel.UnconstrainedGeneralized1NormGenomicSelection.Generalized1NormGenomicSelection"] = ["G1NormSel"]
+for _comp, _v in (("SubsetGA", "SubsetGeneticAlgorithm"), ("BinaryGA", "BinaryGeneticAlgorithm"), ("IntegerGA", "IntegerGeneticAlgorithm"),
+                  ("RealGA", "RealGeneticAlgorithm"), ("NSGA2SubsetGA", "NSGA2SubsetGeneticAlgorithm"), ("NSGA2BinaryGA", "NSGA2BinaryGeneticAlgorithm"),
+                  ("NSGA2IntegerGA", "NSGA2IntegerGeneticAlgorithm"), ("NSGA2RealGA", "NSGA2RealGeneticAlgorithm"),
+                  ("NSGA3SubsetGA", "NSGA3SubsetGeneticAlgorithm"), ("HillClimber", "SteepestDescentSubsetHillClimber"),
+                  ("UnconSetGA", "UnconstrainedSetGeneticAlgorithm"), ("UnconNSGA2SetGA", "UnconstrainedNSGA2SetGeneticAlgorithm"),
+                  ("UnconHill", "UnconstrainedSteepestAscentSetHillClimber")):
+    ENTRY_COVERED["opt.algo.%s.%s" % (_v, _v)] = [_comp]
+for _comp, _v in (("MemeticA", "NSGA2MutatorASubsetGeneticAlgorithm"), ("MemeticB", "NSGA2MutatorBSubsetGeneticAlgorithm"),
+                  ("MemeticSteepest", "NSGA2SteepestDescentSubsetGeneticAlgorithm"), ("MemeticStochastic", "NSGA2StochasticDescentSubsetGeneticAlgorithm")):
+    ENTRY_COVERED["opt.algo.NSGA2MemeticSubsetGeneticAlgorithm." + _v] = [_comp]
+ENTRY_SKIPPED = {
+    "breed.prot.sel.UnconstrainedMultiObjectiveGenomicMating.MultiObjectiveGenomicMating":
+        "legacy unconstrained protocol (needs a variance-matrix factory and a genetic map function); its only use of the generator is to hand "
+        "self.rng to its default optimisers, which are executed as UnconHill / UnconNSGA2SetGA; covered statically (C08_rng_components_explicit_partial)",
+}
+FAMILY_BASES = tuple("%s%sSelectionProtocol" % (k, m) for k in ("Subset", "Binary", "Integer", "Real") for m in ("", "Mate"))
+UNIMPORTABLE_OK = ("pybrops.model.pmebvmat",)        # inconsistent MRO under this interpreter (no stochastic code; listed in DESIGN)
+COPY_METHODS = ("__copy__", "__deepcopy__", "copy", "deepcopy")
+
+def audit_entry_points():
+    import pkgutil, importlib, inspect, pybrops
+    found, classes, problems, unimportable = {}, {}, [], []
+    with warnings.catch_warnings():
+        warnings.simplefilter("ignore")
+        for m in pkgutil.walk_packages(pybrops.__path__, _P, onerror=lambda n: unimportable.append(n)):
+            if m.name.startswith("pybrops.test"): continue
+            try: mod = importlib.import_module(m.name)
+            except Exception: unimportable.append(m.name); continue
+            for nm, ob in list(vars(mod).items()):
+                if getattr(ob, "__module__", None) != m.name: continue
+                q = (m.name + "." + nm)[len(_P):]
+                if inspect.isclass(ob):
+                    try: has = "rng" in inspect.signature(ob.__init__).parameters
+                    except (TypeError, ValueError): has = False
+                    if has: found[q] = "class"; classes[q] = ob
+                    for mn, mo in list(vars(ob).items()):
+                        f = mo.__func__ if isinstance(mo, (classmethod, staticmethod)) else mo
+                        if inspect.isfunction(f) and mn != "__init__":
+                            try:
+                                if "rng" in inspect.signature(f).parameters: found[q + "." + mn] = "method"
+                            except (TypeError, ValueError): pass
+                elif inspect.isfunction(ob):
+                    try:
+                        if "rng" in inspect.signature(ob).parameters: found[q] = "function"
+                    except (TypeError, ValueError): pass
+    for n in unimportable:
+        if not n.startswith(UNIMPORTABLE_OK): problems.append("module %s cannot be imported: its entry points cannot be enumerated" % n)
+    inherited = []
+    for q, kind in sorted(found.items()):
+        if q in ENTRY_COVERED:
+            missing = [c for c in ENTRY_COVERED[q] if c not in COMPONENTS]
+            if missing: problems.append("%s: covering component(s) %s do not exist" % (q, missing))
+            continue
+        if q in ENTRY_SKIPPED: continue
+        ob = classes.get(q)
+        if ob is not None and q.startswith("breed.prot.sel.") and not inspect.isabstract(ob):
+            mro = list(ob.__mro__)
+            fam = [i for i, c in enumerate(mro) if c.__name__ in FAMILY_BASES and c.__module__.startswith("pybrops.breed.prot.sel.")]
+            if fam:
+                over = sorted({k for c in mro[:fam[0]] for k in ("select", "sosolve", "mosolve", "rng", "soalgo", "moalgo") if k in vars(c)})
+                if not over:
+                    inherited.append(q); continue
+                problems.append("%s overrides %s of its family base %s: not covered by the family's experiments - add a component or a reason" % (q, over, mro[fam[0]].__name__))
+                continue
+        problems.append("%s (%s accepting rng) is not classified: add a component (ENTRY_COVERED) or a reason (ENTRY_SKIPPED)" % (q, kind))
+    for q in list(ENTRY_COVERED) + list(ENTRY_SKIPPED):
+        if q not in found: problems.append("%s is classified but no longer exists / no longer accepts rng (stale entry)" % q)
+    # copy routes: which stochastic classes define copy methods of their own (anywhere in their pybrops MRO)
+    own = {}
+    for q, ob in classes.items():
+        r = tuple(k for k in COPY_METHODS if any(k in vars(c) for c in ob.__mro__ if c.__module__.startswith("pybrops")))
+        if r: own[_P + q] = r
+    want = {v[0]: tuple(v[1]) for v in OWN_COPY.values()}
+    for q in sorted(set(own) | set(want)):
+        if own.get(q) != want.get(q):
+            problems.append("copy routes of %s are %s, the lifecycle table OWN_COPY says %s: reclassify (every route of a stochastic class must be exercised)"
+                            % (q, own.get(q), want.get(q)))
+    for c in OWN_COPY:
+        if c not in OBJ_COMPS: problems.append("OWN_COPY component %s is not an object component" % c)
+    if problems:
+        raise RuntimeError("entry-point audit: " + " || ".join(problems[:8]) + (" || ... %d more" % (len(problems) - 8) if len(problems) > 8 else ""))
+    return {"audit": "entry points accepting rng", "found": len(found), "executed_by_components": sum(1 for q in found if q in ENTRY_COVERED),
+            "inherit_family_select": len(inherited), "skipped_with_reason": sorted(ENTRY_SKIPPED), "classes_with_own_copy_routes": sorted(own),
+            "unimportable_modules": sorted(set(unimportable))}
 
 def translate(repo, gen_dir):
     import os
@@ -763,4 +1228,6 @@ def translate(repo, gen_dir):
     n = T.selftest(scratch)                      # the translator must flag every hidden-source idiom of a synthetic module
     tab, info = T.translate(repo, gen_dir, all_static_names())
     info["translator_selftest_assertions"] = n
-    return [info]
+    # kernel expressions of prng.seed / prng.spawn / the pymoo seeds (Gen/C08_Kernel.v); fail closed
+    from translate import c08_kernel
+    return [info, c08_kernel.translate(repo, gen_dir), audit_entry_points()]
